@@ -18,8 +18,9 @@ RULE = (
     "Three parts. (1) Exhaustive box: every pattern syntax tree with <= 3 leaves over the leaves {a, b, .}, the binary "
     "operators juxtaposition and '|' and one of {none, ?, *, +} on EVERY node (12 + 1152 + 221184 trees, each rendered with "
     "explicit parentheses so that the library parses the same tree), plus every tree with <= 2 leaves followed by '$' "
-    "(1164), against EVERY symbol sequence over {a, b, x} (x = a symbol no pattern names): length <= 5 for the <= 2-leaf "
-    "trees, length <= 3 (quick) / <= 5 (thorough) for the 3-leaf trees. Each maximal sequence is fed to a fresh Matcher; "
+    "(1164), against EVERY symbol sequence over {a, b, x} (x = a symbol no pattern names): length <= 5 (quick) / <= 6 "
+    "(thorough) for the <= 2-leaf trees and their '$' variants, length <= 3 (quick) / <= 4 (thorough) for the 3-leaf trees "
+    "(length 5 there would cost about 7 min on 16 idle cores). Each maximal sequence is fed to a fresh Matcher; "
     "after every prefix the check compares match_symbol's result, is_complete() and valid_next_symbols() with the "
     "reference, so one 'evaluation' in this part is one (pattern, sequence) pair, every sequence of length 0..L counted once. "
     "coverage.exhaustive refers to exactly this box. (2) Hypothesis: trees with up to 8 leaves over three names and '.', "
@@ -30,9 +31,12 @@ RULE = (
     "validator's generic pattern, the patterns passed to make_sequence by the test-case generators, the module's "
     "documentation examples) against such walks of length <= 12 over all ParseCodes names. "
     "Oracle: Python re.fullmatch over one character per symbol for completeness; prefix viability by brute-force "
-    "extension with <= leaves symbols (all of part 1, small patterns elsewhere) and by re.fullmatch against the "
-    "structurally derived prefix-closure pattern, cross-checked with a position automaton (a disagreement between "
-    "reference engines is a harness error, exit 2). After a rejected symbol the reference state is unchanged (documented), "
+    "extension with <= leaves symbols (re.fullmatch on every candidate: the <= 2-leaf box, every 8th 3-leaf tree, small "
+    "patterns elsewhere) and by re.fullmatch against the structurally derived prefix-closure pattern (everywhere else), "
+    "always cross-checked with a position automaton (a disagreement between reference engines is a harness error, exit 2). "
+    "In parts 2 and 3 every re call runs under a 0.15 s CPU alarm because re backtracks exponentially on some nested "
+    "repetitions; a pattern that hits it is judged by the automaton alone (label oracle:re_cut_off_automaton_only, about 1%). "
+    "After a rejected symbol the reference state is unchanged (documented), "
     "so sequences continue after rejections. "
     "Non-trivial = the pattern contains at least one of | ? * + and the sequence has >= 2 symbols of which >= 1 was "
     "accepted (the automaton is driven through a real transition and queried again). distinct_nontrivial counts, "
